@@ -255,28 +255,91 @@ def run_tools(ctx, items, q, extra_streams=()):
     seen = set(id(c[1]) for c in chosen)
     streams = chosen + [s for i, s in enumerate(streams) if i % step == ctx.seed % step and id(s[1]) not in seen]
     signatures = len(bysig)
-    runs = 0
-    path = os.path.join(ctx.scratch, "tool_in.bin")
+    jobs = []          # (name, argv without the input path, file suffix, bytes, ident, description of the input kind)
     for ident, b in streams:
+        for name, cmd in (("nallister-avc", [nallister, "-annexb", "-c", "avc", "-sei", "2", "-ps"]),
+                          ("nallister-hevc", [nallister, "-annexb", "-c", "hevc", "-sei", "2", "-ps"]),
+                          ("pslister-avc", [pslister, "-c", "avc", "-v", "-i"]),
+                          ("pslister-hevc", [pslister, "-c", "hevc", "-v", "-i"])):
+            jobs.append((name, cmd, ".bin", b, ident, "an Annex B stream"))
+    runs = len(jobs)
+    # the mp4 path of the listers: a media segment without moov (the codec then comes from -c, in all its spellings), one
+    # sample = the length-prefixed NAL units; one input per structural signature of the sample
+    import struct
+
+    def box(t, *p):
+        b = b"".join(p)
+        return struct.pack(">I", 8 + len(b)) + t + b
+
+    def segment(sample):
+        def moof(off):
+            return box(b"moof", box(b"mfhd", struct.pack(">II", 0, 1)),
+                       box(b"traf", box(b"tfhd", struct.pack(">II", 0x020000, 1)), box(b"tfdt", struct.pack(">II", 0, 0)),
+                           box(b"trun", struct.pack(">IIiI", 0x000201, 1, off, len(sample)))))
+        return box(b"styp", b"msdh", struct.pack(">I", 0), b"msdh") + moof(len(moof(0)) + 8) + box(b"mdat", sample)
+
+    def sample_signature(b):
+        sig, pos = [], 0
+        while pos + 4 <= len(b) and len(sig) < 4:
+            n = int.from_bytes(b[pos:pos + 4], "big")
+            body = b[pos + 4:pos + 4 + n]
+            sig.append((min(n, 3), min(len(body), 3), body[0] if body else -1, body[1] >> 3 if len(body) > 1 else -1))
+            if pos + 4 + n > len(b):
+                break
+            pos += 4 + n
+        return tuple(sig)
+    by = {}
+    for ident, kind, b in items:
+        if kind in ("sample", "ctx-avc", "ctx-hevc") and 0 < len(b) < 4000:
+            by.setdefault(sample_signature(b), []).append((ident, b))
+    segs = [v[ctx.seed % len(v)] for _, v in sorted(by.items(), key=lambda kv: str(kv[0]))]
+    cap = 500 if q else 3000
+    if len(segs) > cap:
+        st = len(segs) // cap + 1
+        segs = [x for i, (x, sg) in enumerate(zip(segs, sorted(by, key=str))) if i % st == ctx.seed % st or any(t[0] <= 2 for t in sg)]
+    seg_runs = 0
+    for ident, b in segs:
+        sb = segment(b)
+        for codec in ("avc", "h264", "h.264", "hevc", "h265", "h.265"):
+            for name, cmd in (("nallister-mp4-%s" % codec, [nallister, "-c", codec, "-sei", "2", "-ps"]),
+                              ("nallister-mp4-%s-sei1" % codec, [nallister, "-c", codec, "-sei", "1"]),
+                              ("pslister-mp4-%s" % codec, [pslister, "-c", codec, "-v", "-i"])):
+                if name.startswith("pslister") and codec not in ("avc", "hevc"):
+                    continue
+                seg_runs += 1
+                jobs.append((name, cmd, ".m4s", sb, ident, "a media segment without moov (sample " + b.hex()[:200] + ")"))
+    import concurrent.futures
+    import threading
+    tl = threading.local()
+    counter = [0]
+    lock = threading.Lock()
+
+    def one(job):
+        name, cmd, suffix, data, ident, kind = job
+        if not hasattr(tl, "n"):
+            with lock:
+                counter[0] += 1
+                tl.n = counter[0]
+        path = os.path.join(ctx.scratch, "tool_in_%d%s" % (tl.n, suffix))
         with open(path, "wb") as f:
-            f.write(b)
-        for name, cmd in (("nallister-avc", [nallister, "-annexb", "-c", "avc", "-sei", "2", "-ps", path]),
-                          ("nallister-hevc", [nallister, "-annexb", "-c", "hevc", "-sei", "2", "-ps", path]),
-                          ("pslister-avc", [pslister, "-c", "avc", "-v", "-i", path]),
-                          ("pslister-hevc", [pslister, "-c", "hevc", "-v", "-i", path])):
-            runs += 1
-            try:
-                p = subprocess.run(cmd, capture_output=True, text=True, timeout=10, errors="replace")
-            except subprocess.TimeoutExpired:
-                ctx.report("tool-hang/" + name, "%s does not return within 10 s on an Annex B stream" % name, {"id": ident, "hex": b.hex()[:400]})
-                continue
-            if p.returncode == 2 and "goroutine " in p.stderr and "panic" in p.stderr:
-                m = re.search(r"\n(main\.[A-Za-z0-9_.()*]+|github.com/Eyevinn/mp4ff/[\w/.()*]+)\(", p.stderr)
-                where = m.group(1) if m else "?"
-                ctx.report("tool-panic/%s/%s" % (name, where), "%s panics: %s" % (name, p.stderr.splitlines()[0][:200]), {"id": ident, "hex": b.hex()[:400]})
-    if runs < 200:
-        raise core.Machinery("only %d tool runs" % runs)
-    return {"inputs": len(streams), "runs": runs, "signatures": signatures}
+            f.write(data)
+        try:
+            p = subprocess.run(cmd + [path], capture_output=True, text=True, timeout=20, errors="replace")
+        except subprocess.TimeoutExpired:
+            return ("tool-hang/" + name, "%s does not return within 20 s on %s" % (name, kind), {"id": ident, "hex": data.hex()[:400]})
+        if p.returncode == 2 and "goroutine " in p.stderr and "panic" in p.stderr:
+            m = re.search(r"\n(main\.[A-Za-z0-9_.()*]+|github.com/Eyevinn/mp4ff/[\w/.()*]+)\(", p.stderr)
+            where = m.group(1) if m else "?"
+            return ("tool-panic/%s/%s" % (name, where), "%s panics on %s: %s" % (name, kind.split(" (")[0], p.stderr.splitlines()[0][:200]),
+                    {"id": ident, "hex": data.hex()[:400], "cmd": " ".join(cmd[1:])})
+        return None
+    with concurrent.futures.ThreadPoolExecutor(max_workers=12) as ex:
+        for res in ex.map(one, jobs):
+            if res:
+                ctx.report(*res)
+    if runs < 200 or seg_runs < 200:
+        raise core.Machinery("only %d + %d tool runs" % (runs, seg_runs))
+    return {"inputs": len(streams), "runs": runs, "signatures": signatures, "segments": len(segs), "segment_runs": seg_runs}
 
 
 def run(ctx):
@@ -373,7 +436,7 @@ def run(ctx):
                          "H5": "ASC, ADTS, avcC, hvcC, av1C: every prefix, head substitutions",
                          "H6": "NAL unit sequences with their own context (SPS, PPS, then slice header / SEI parsed against them): count and range bombs placed in the parameter sets "
                                "(reference index counts, slice group change rate, HRD cpb counts, sub-picture HRD flags) and the (sps, pps, slice) triples of AvcSyntax.tla / HevcSyntax.tla with mutations",
-                         "tools": "the built mp4ff-nallister (-annexb, avc / hevc, -sei 2 -ps) and mp4ff-pslister on %d Annex B streams (one per structural signature - leading bytes, start code lengths, unit length classes 0/1/2/3+, first bytes; %d signatures - plus a sample of the rest): %d runs, exit by panic or no return within 10 s is a violation" % (tool_stats["inputs"], tool_stats["signatures"], tool_stats["runs"]),
+                         "tools": "the built mp4ff-nallister (-annexb, avc / hevc, -sei 2 -ps) and mp4ff-pslister on %d Annex B streams (one per structural signature - leading bytes, start code lengths, unit length classes 0/1/2/3+, first bytes; %d signatures - plus a sample of the rest): %d runs; and on %d media segments without moov holding one generated sample each, with every spelling of -c (avc, h264, h.264, hevc, h265, h.265) and -sei 1 / 2: %d runs; exit by panic or no return within 20 s is a violation" % (tool_stats["inputs"], tool_stats["signatures"], tool_stats["runs"], tool_stats["segments"], tool_stats["segment_runs"]),
                          "budgets": "2 s + 20 us/byte wall, 16 MiB + 1024 x length allocated, worker under ulimit -v 8 GB", "fatal_worker_crashes": fatals}
     ctx.cov["rule"] = ("inputs = Robust.tla H1 grammar (exhaustive) + mutation operators applied to behaviours exported by the syntax specs; "
                        "each input is run through every entry point of its family in an isolated process under recover(); "
